@@ -3,6 +3,7 @@
    proofs in Proof/Fun2CoreProof.v. *)
 From Coq Require Import List ZArith NArith String Bool.
 From SCC Require Import Lang.FunSyn Lang.CoreSyn Sem.AxSem Sem.CoreSem Sem.FunSem Model.Fun2Core Proof.Fun2CoreProof Proof.Fun2CoreSim.
+From SCC Require Import Proof.Fun2CoreMain.
 Import ListNotations.
 
 (* ---------- the property at full strength (statements) ----------
@@ -39,6 +40,28 @@ Theorem C02_fun2core_capture_refuted :
     run_fun n p args <> run_core n c args.
 Proof. exact fun2core_capture_refuted_lemma. Qed.
 Print Assumptions C02_fun2core_capture_refuted.
+
+(* ---------- refuted: the BARENDREGT-GUARDED statement fails as well (known finding call-to-main) ----------
+   compile_main gives the Core definition `main` no return-continuation parameter (its body ends in
+   `exit`) while every call site passes args ++ [continuation]: a program that calls `main` (witness
+   corpus/fun/call_main_nontail.sc, tied to the real checker's output by modelrun; it satisfies the
+   Barendregt guard and the syntactic capture detector does not fire) prints 3, 107 and returns 8 by the
+   source semantics; its translation is stuck "call-arity" on the Core machine (natively the inner main
+   exits the process with status 7).  Hence ~ fun2core_correct_guarded_statement; the preservation
+   theorems below carry the additional guard [calls_main_prog p = false]. *)
+Theorem C02_fun2core_call_to_main_refuted :
+  exists (p : fcprog) (args : list Z) (c : cprog) (n : nat),
+    annotated_fcprog p = true /\ effect_sequenced p = true /\ barendregt p = true /\
+    shadowing_risk_prog p = false /\ calls_main_prog p = true /\
+    compile_prog p = Ok c /\
+    defined (run_fun n p args) = true /\
+    run_fun n p args <> run_core n c args.
+Proof. exact fun2core_call_to_main_refuted_lemma. Qed.
+Print Assumptions C02_fun2core_call_to_main_refuted.
+
+Theorem C02_fun2core_guarded_statement_refuted : ~ fun2core_correct_guarded_statement.
+Proof. exact fun2core_guarded_statement_refuted_lemma. Qed.
+Print Assumptions C02_fun2core_guarded_statement_refuted.
 
 (* REPAIRED defect (fix commit 126604b of /repo), kept as regression statements.  Before the fix the
    target covariable of `goto k (t)` was typed with the annotation of the goto expression instead of
